@@ -16,8 +16,8 @@ d) transform_where_clause_for_event_type (used by the per-type sub-query push-do
    Followed through same-module helpers and Option::map-style closures, so extracting the leaf rewrite into a helper is not reported.
 c) match_sequences tests `all_matches.len() >= limit` before processing a group and truncates after extending (LIMIT bounds the number of matched sequences).
 """
-FLOOR = 14
-REQUIRED = ["C15.a1", "C15.a2", "C15.a3", "C15.b", "C15.c", "C15.d", "C15.e", "C15.f", "C15.g", "C15.h", "C15.i", "C15.j", "C15.k", "C15.l"]
+FLOOR = 16
+REQUIRED = ["C15.a1", "C15.a2", "C15.a3", "C15.b", "C15.c", "C15.d", "C15.e", "C15.f", "C15.g", "C15.h", "C15.i", "C15.j", "C15.k", "C15.l", "C15.m", "C15.n"]
 
 
 def run(ctx):
@@ -360,6 +360,68 @@ def run(ctx):
                 out.append(x)
         return out
     ctx.run("C15.l", "K9 LOOP + K7", "SequenceStreamMerger::batches_to_zones", "positions in the merged time column count rows across all batches", l_)
+
+    def m_(inst):
+        # an event may be the partner in several matched sequences: the response of a sequence query is not de-duplicated by event id
+        b = F.fn("QueryCommandHandler::handle")
+        nw = one(b, r"QueryResponseWriter::new$")
+        wr = [c_ for c_ in b.find_calls(r"QueryResponseWriter::write$")]
+        if not wr:
+            raise AnchorMissing("QueryResponseWriter::write in QueryCommandHandler::handle")
+        rw = F.fn("QueryResponseWriter::try_accept_row")
+        dedups = self_fields_read(rw) & {".event_id_idx", ".seen_event_ids", ".seen_ids"}
+        inst.sites = [sp(b, nw.bb), "try_accept_row reads %s" % sorted(dedups)]
+        if not dedups:
+            inst.sites.append("the response writer does not de-duplicate by event id: nothing to require")
+            return []
+        off = b.find_calls(r"QueryResponseWriter::with_repeated_event_ids$")
+        seqs = [c_ for c_ in b.find_calls(r"QueryExecutionPipeline::is_sequence_query$")]
+        te = [e for c_ in seqs for e in bool_result_edge(b, c_, True) if any(b.dominates_edge(e, o.bb) for o in off)]
+        if not off or not te:
+            return [("sequence-rows-deduplicated", "QueryCommandHandler::handle writes a sequence result through a response writer that drops rows with an event id it has already written: an event that is the partner in several sequences is returned once, the other sequences lose half a pair", sp(b, wr[0].bb))]
+        # on the sequence edge the write is reached only through the switch-off
+        for w in wr:
+            seen = b.reach(0, src_edges=te, cut_blocks=[o.bb for o in off])
+            if w.bb in seen:
+                return [("sequence-rows-deduplicated", "on the sequence path QueryResponseWriter::write can be reached without with_repeated_event_ids()", sp(b, w.bb))]
+        return []
+    ctx.run("C15.m", "K2 CUT", "QueryCommandHandler::handle (sequence response)", "every matched sequence is returned whole, shared events included", m_)
+
+    def n_(inst):
+        # a numeric condition on a float field sees fractional values on both row paths of a sequence query
+        bad = []
+        b = F.fn("SequenceWhereEvaluator::evaluate_row")
+        er = one(b, r"ConditionEvaluator::evaluate_row_at$")
+        ty = None
+        for a_ in er.args[1:]:
+            for l_ in sorted(b._origin_locals(a_)):
+                t_ = b.local_ty(l_) or ""
+                m_ = re.search(r"([A-Za-z_0-9]+Accessor)\b", t_)
+                if m_ and "dyn " not in t_ and not t_.startswith("&"):
+                    ty = m_.group(1)
+        inst.sites = [sp(b, er.bb) + " accessor type %s" % ty]
+        if ty is None:
+            raise AnchorMissing("accessor type handed to evaluate_row_at in SequenceWhereEvaluator::evaluate_row")
+        gk = F.find(r"^<.*::%s(<'a>)? as .*FieldAccessor>::get_f64_at" % re.escape(ty))
+        parses = False
+        for k in gk:
+            for c_ in F.fn_exact(k).calls:
+                if not c_.cleanup and re.search(r"str::parse$|FromStr>::from_str$", c_.nname) and "f64" in (c_.name + " " + str(c_.ga or "")):
+                    parses = True
+        typed_zone = False
+        if not parses:
+            # acceptable alternative: the merger keeps float columns typed (then PreparedAccessor's own f64 view works)
+            bz = F.fn("SequenceStreamMerger::batches_to_zones")
+            typed_zone = any(not c_.cleanup and re.search(r"f64::to_le_bytes$|ColumnValues::new_typed_f64$", c_.nname) for c_ in bz.calls)
+        if not parses and not typed_zone:
+            bad.append(("float-where-through-i64:%s" % ty, "the sequence WHERE is evaluated on the merger's text zones through %s, whose get_f64_at has no reading for rendered text: a fractional value (80.25) has no i64 reading either, so the row fails every operator" % ty, sp(b, er.bb)))
+        ed = F.method("NumericCondition", "Condition", "evaluate_event_direct")
+        lanes = sorted({c_.nname.split("::")[-1] for c_ in ed.calls if not c_.cleanup and "get_field_as_" in c_.nname})
+        inst.sites.append("evaluate_event_direct lanes: %s" % lanes)
+        if "get_field_as_f64" not in lanes:
+            bad.append(("float-where-through-i64:memtable", "NumericCondition::evaluate_event_direct reads a memtable row's field as i64 only: a sub-query of a sequence drops unflushed rows with fractional values", None))
+        return bad
+    ctx.run("C15.n", "K10 READS", "SequenceWhereEvaluator::evaluate_row / NumericCondition::evaluate_event_direct", "fractional float values take part in a sequence WHERE", n_)
 
     def f_(inst):
         """Times are signed (events before 1970 have negative epoch seconds). The matcher and the grouper order rows by the i64 the
